@@ -55,6 +55,13 @@ def programs(tier):
                 ("mat", ("mat", idn, "mj"), "mj2")]
     out += [("join", ("mat", ("dedup", ("leaf", "Is")), "mj"), S, None), ("join", ("xfer", X, "sq"), ("mat", ("dedup", ("leaf", "Is")), "mj"), None),
             ("xfer", ("join", S, ("mat", ("chain", ("leaf", "Is"), ("proj", ("leaf", "0s"), ())), "mj"), None), "it1")]
+    # a sorted chain with a statically empty branch, more operations, then a materialization / transfer: pruning the branch
+    # changes the shape the SQL engine sees when the operations are re-applied
+    for ch in (("chain", ("leaf", "0s"), S), ("chain", S, ("leaf", "0s"))):
+        srt = ("sort", ch, ((meprogs.B, True),))
+        for top in (("sel", srt, ("gt", meprogs.A, ("lit", "$k1"))), ("calc", srt, "d", ("add", meprogs.A, meprogs.B)), ("proj", srt, ("a", "b")),
+                    ("slice", srt, 0, 2)):
+            out += [("xfer", ("mat", top, "ms"), "it1"), ("xfer", top, "it1"), ("mat", top, "ms")]
     selS = ("sel", S, ("gt", meprogs.A, ("lit", "$k1")))
     selX = ("sel", X, ("gt", meprogs.A, ("lit", "$k1")))
     for empty, live, other in ((("leaf", "0s"), selS, "it1"), (("leaf", "0i"), selX, "sq"), (("leaf", "0i"), selX, "it2")):
@@ -218,7 +225,14 @@ def run_one(prog, env, db, times=2, warm=None):
     for i in range(times):
         before = snapshot(tree)
         n0 = len(log)
-        out = proc.process(tree)
+        try:
+            out = proc.process(tree)
+        except Skip:
+            raise
+        except Exception as e:  # noqa: BLE001 - the tree was accepted by the factories: processing it must not fail
+            problems.append((f"process-raises:{type(e).__name__}", f"process() call {i + 1}: {e}"[:200]))
+            results.append(None)
+            break
         after = snapshot(tree)
         p = input_tree_problem(before, after)
         if p:
